@@ -126,4 +126,90 @@ def route_program(rng, lsb0=False, huge=0.0):
         calls.append({'op': 'mk', 'rid': 'c', 'sa': [rng.choice(_d.CLASSES), 'from_obj'], 'ia': [NONE_I], 'xs': [_d.ref('a')]})
         if cls in _d.MUTABLE:
             calls.append(_d.mutator_call(rng, bits, cls))
+            # what is written out afterwards is the changed content, whatever the object was built from
+            calls.append({'op': 'tofile', 't': 'a', 'sa': [rng.choice(['path', 'bytesio'])], 'ia': [NONE_I]})
+            calls.append({'op': 'tobytes', 't': 'a', 'sa': ['tobytes']})
+    return {'calls': calls}
+
+
+def cache_route_program(rng, lsb0=False):
+    """C08, route 'string-cache hit': a literal string is first used in ways that must not change what it means -
+    as an operand added to (empty and non-empty) mutable objects that are then changed in place, as a fromstring /
+    constructor argument of an object that is then changed - and then the same string is used to build an object that
+    is put through the same calls as a twin built from bin= / bools."""
+    from .isoprogs import str_lit
+    n = rng.choice([4, 8, 8, 12, 16, 24, 32, 3, 6])
+    bits = _d.rand_bits(rng, n)
+    s = str_lit(rng, bits)                      # one spelling, used throughout (the cache key)
+    route = {'bin': 'auto_bin', 'hex': 'auto_hex', 'oct': 'auto_oct'}[s['kind']]
+    calls = []
+    if lsb0:
+        calls.append(_d.setopt('lsb0', 1))
+    for k in range(rng.randint(1, 3)):
+        tcls = rng.choice(_d.MUTABLE)
+        tbits = [] if rng.random() < 0.6 else _d.rand_bits(rng, rng.choice([1, 4, 8]))
+        r = rng.random()
+        if r < 0.7:
+            calls.append(_d.mk('t', tcls, tbits, 'bin', NONE_I))
+            calls[-1]['drop'] = ['*']
+            opn = rng.choice(['prepend', 'append', 'iadd', 'insert', 'overwrite'] if tbits or True else ['prepend'])
+            c = {'op': opn, 't': 't', 'xs': [dict(s)]}
+            if opn in ('insert', 'overwrite'):
+                c['ia'] = [0]
+            calls.append(c)
+            cur = bits + tbits if opn == 'prepend' else tbits + bits
+        elif r < 0.85:
+            calls.append(_d.mk('t', tcls, bits, 'fromstring' if s['kind'] == 'bin' else route, NONE_I))
+            calls[-1]['drop'] = ['*']
+            cur = bits
+        else:
+            calls.append(_d.mk('t', tcls, bits, route, NONE_I))
+            calls[-1]['drop'] = ['*']
+            cur = bits
+        for _ in range(rng.randint(1, 2)):
+            calls.append(rng.choice([
+                {'op': 'invert', 't': 't', 'sa': ['none'], 'ia': []},
+                {'op': 'set', 't': 't', 'sa': ['none'], 'ia': [rng.randint(0, 1)]},
+                {'op': 'reverse', 't': 't', 'ia': [NONE_I, NONE_I]},
+                {'op': 'append', 't': 't', 'xs': [_d.lit('bin', [1])]},
+                {'op': 'setitem', 't': 't', 'ia': [0], 'va': [[2, 0, 1]]},
+                {'op': 'clear', 't': 't'},
+            ]))
+    cls = rng.choice(_d.CLASSES)
+    ops = []
+    for _ in range(rng.randint(2, 4)):
+        ops.append(rng.choice([
+            {'op': 'eq', 'xs': [_d.lit('bools', bits)]},
+            {'op': 'eq', 'xs': [dict(s)]},
+            {'op': 'getslice', 'ia': [NONE_I, NONE_I, NONE_I]},
+            {'op': 'count', 'ia': [1]},
+            {'op': 'tobytes', 'sa': ['tobytes']},
+            {'op': 'find', 'xs': [dict(s)], 'ia': [NONE_I, NONE_I, NONE_I]},
+            {'op': 'add', 'xs': [dict(s)]},
+            {'op': 'inv'},
+        ]))
+    for rt in (route, 'bools', route, 'bin'):
+        calls.append(_d.mk('a', cls, bits, rt, NONE_I))
+        calls[-1]['drop'] = ['*']
+        for po in ops:
+            calls.append(dict(po, t='a'))
+    return {'calls': calls}
+
+
+def tight_window_program(rng):
+    """windows whose end is within a byte of the end of the source, from unaligned offsets"""
+    calls = []
+    for _ in range(rng.randint(3, 6)):
+        nbytes = rng.choice([1, 2, 2, 3, 5])
+        kind = rng.choice(SOURCES)
+        nbits = 8 * nbytes
+        src = _d.rand_bits(rng, nbits)
+        off = rng.randint(0, min(nbits, 15))
+        ln = nbits - off + rng.choice([-8, -1, 0, 0, 1, 1, 2, 3, 5, 7, 7, 8, 9])
+        if ln < 0:
+            ln = 0
+        cls = rng.choice(_d.CLASSES)
+        calls.append({'op': 'mkwin', 'rid': 'a', 'sa': [cls, kind], 'ia': [off, ln, NONE_I],
+                      'xs': [_d.lit('bin', src)], 'drop': ['*']})
+        calls.append({'op': 'len', 't': 'a'})
     return {'calls': calls}
